@@ -510,6 +510,36 @@ def build_catalogue() -> Catalogue:
                 cost=2,
             )
         )
+    # trajectory *functions* built once per run and called by every caller (the README idiom: build the rollout
+    # function once, map it over many initial conditions)
+    cat.pool_builders["fn:rollout"] = lambda: ex.rollout(ex.stepper.KortewegDeVries(1, _L, 16, _DT), 3, include_init=True)
+    cat.pool_builders["fn:rollout-noinit"] = lambda: ex.rollout(ex.stepper.Burgers(1, _L, 16, _DT), 2)
+    cat.pool_builders["fn:repeat"] = lambda: ex.repeat(ex.stepper.KuramotoSivashinsky(1, _L, 16, _DT), 3)
+    cat.pool_builders["fn:rollout-aux"] = lambda: ex.rollout(ex.ForcedStepper(ex.stepper.Diffusion(1, _L, 16, _DT)), 3, include_init=True, takes_aux=True, constant_aux=True)
+    for v in (0, 1, 2):
+        for fname in ("fn:rollout", "fn:rollout-noinit", "fn:repeat"):
+            cat.add(Op(f"shared-{fname}[variant={v}]", lambda pool, fname=fname, v=v: pool.get(fname)(_field(1, 1, 16, v)), ("exponax.rollout", "exponax.repeat"), "traj", uses_pool=True, cost=2))
+        cat.add(Op(f"shared-fn:rollout-aux[variant={v}]", lambda pool, v=v: pool.get("fn:rollout-aux")(_field(1, 1, 16, v), _field(1, 1, 16, v + 3)), ("exponax.rollout", "exponax.ForcedStepper"), "traj", uses_pool=True, cost=2))
+        cat.add(
+            Op(
+                f"shared-fn:rollout-jvp[variant={v}]",
+                lambda pool, v=v: jax.jvp(pool.get("fn:rollout"), (_field(1, 1, 16, v),), (_field(1, 1, 16, v + 1),)),
+                ("exponax.rollout",),
+                "traj",
+                uses_pool=True,
+                cost=3,
+            )
+        )
+        cat.add(
+            Op(
+                f"shared-fn:rollout-grad[variant={v}]",
+                lambda pool, v=v: jax.grad(lambda u: jnp.sum(pool.get("fn:rollout")(u) ** 2))(_field(1, 1, 16, v)),
+                ("exponax.rollout",),
+                "traj",
+                uses_pool=True,
+                cost=3,
+            )
+        )
     for sub_len, T in ((1, 6), (2, 6), (4, 6), (6, 6), (2, 5), (4, 5)):
         cat.add(
             Op(
